@@ -4,7 +4,7 @@
    The theorems state that this decoder is the inverse of the spec's M, so "the model decodes it back" means
    "it is the spec's encoding". *)
 From Coq Require Import List NArith ZArith.
-From CandidV Require Import model.Leb model.Coerce model.Hash model.TypeSer proofs.TypeSerProofs proofs.WireProofs proofs.HashProofs proofs.SubProofs proofs.LebProofs proofs.SlebProofs.
+From CandidV Require Import model.Leb model.Coerce model.Hash model.TypeSer proofs.TyProofs proofs.TypeSerProofs proofs.TypeSerNodes proofs.WireProofs proofs.HashProofs proofs.SubProofs proofs.LebProofs proofs.SlebProofs.
 Open Scope N_scope.
 
 Theorem C03_value_roundtrip : forall v E t out f rest,
@@ -38,15 +38,24 @@ Proof. exact build_all_inv. Qed.
 (* ... and the header it writes is read back by the specification's header grammar, consuming exactly the header:
    a table of [n] entries, each of them a COMPOSITE type (opt, vec, record, variant, func, service; never a primitive,
    never a future type) whose references are primitive codes or indices below [n], followed by one such reference
-   per argument.  (Hypotheses: the numeric limits of the grammar -- ids below 2^32, counts below 2^64, valid UTF-8
-   method names, at most one mode -- for the types that got a table entry.) *)
+   per argument.  (Hypotheses, all on the INPUT: the numeric limits of the grammar -- ids below 2^32, counts below 2^64,
+   valid UTF-8 method names, at most one mode -- for the sub-terms of the argument types and definitions.) *)
 Theorem C03_header_reads : forall E ts h,
   enc_header E ts = Some h ->
-  (forall s, build_all (build_fuel E ts) E ([], []) ts = Some s -> keys_wf E s /\ (Z.of_nat (len s) < 2 ^ 63)%Z) ->
+  (forall a, In a (nodes E ts) -> wf_ser a) ->
+  (Z.of_nat (length (nodes E ts)) < 2 ^ 63)%Z ->
   lenN ts < 2 ^ 64 ->
   exists n es rs,
     length es = n /\ Forall (entry_ok n) es /\ length rs = length ts /\ Forall (idx_ok n) rs /\ forall rest, read_header_raw (h ++ rest) = Ok (es, rs, rest).
-Proof. exact enc_header_reads. Qed.
+Proof. exact enc_header_reads_closed. Qed.
+
+(* every key of the builder's map is a node of the input, and the table is no longer than the node list *)
+Theorem C03_table_within_input : forall E ts s,
+  build_all (build_fuel E ts) E ([], []) ts = Some s -> keys_in (nodes E ts) s /\ (len s <= length (nodes E ts))%nat.
+Proof.
+  intros E ts s H. split; [exact (build_all_keys E ts s H)|].
+  exact (table_len_le_nodes E ts s (proj1 (build_all_inv _ _ _ _ H)) (build_all_keys E ts s H)).
+Qed.
 
 (* non-vacuity: a recursive list type behind two aliases, a function and a service that share it; the header the model
    writes is accepted by the complete header parser (with all its side conditions) and the argument types read back are
@@ -71,3 +80,4 @@ Print Assumptions C03_header_fields_ascending.
 Print Assumptions C03_type_comparison.
 Print Assumptions C03_table_invariant.
 Print Assumptions C03_header_reads.
+Print Assumptions C03_table_within_input.
